@@ -94,13 +94,35 @@ def direct_input(e, labels) -> bool:
     if e[0] == "it":
         return direct_input(e[2], labels)
     if e[0] == "newb":
-        return any(direct_input(a, labels) for a in e[3])
+        if any(direct_input(a, labels) for a in e[3]):
+            return True
+        # a local container filled from the input on this path
+        p_ = _CUR.get("p")
+        if p_ is not None and e not in _CUR["busy"]:
+            _CUR["busy"].add(e)
+            try:
+                for ev in p_.events:
+                    if ev.kind == "call" and ev.target is None and ev.recv == e and ev.name in ("append", "extend", "fromlist", "insert") and ev.args \
+                            and (direct_input(ev.args[-1], labels) or ev.args[-1][0] == "new" and any(
+                                direct_input(a, labels) or (a[0] == "unp" and direct_input(a[3], labels)) for a in _new_args(p_, ev.args[-1]))):
+                        return True
+            finally:
+                _CUR["busy"].discard(e)
+        return False
     if e[0] == "phi":
         return direct_input(e[2], labels) and direct_input(e[3], labels)
     return False
 
 
 LABELS = {"file", "b", "hex_string", "d", "filepath"}
+_CUR = {"p": None, "busy": set()}
+
+
+def _new_args(p, obj):
+    for ev in p.events:
+        if ev.kind == "new" and ev.obj == obj:
+            return list(ev.args)
+    return []
 
 
 class HashIntervals(Intervals):
@@ -426,6 +448,7 @@ def check(prog, rep, tier):
                         bad = (f"capacity = {nshow(cap)}", f"the loaded capacity is {nshow(cap)}; the writer emits capacity x bucket_size slots of {S_[1]} bytes followed by a "
                                f"{F_[1]}-byte footer, so capacity must be (len - {F_[1]}) // {S_[1]} // bucket_size (the footer must not be counted as slots)")
                         break
+                _CUR["p"] = p
                 bk = p.fields.get((obj, "_buckets"))
                 apps = [e for e in p.events if e.kind == "call" and e.target is None and e.name == "append" and e.recv is not None
                         and (outer_field(e.recv) == "_buckets" or e.recv == bk or (e.recv[0] == "sub" and e.recv[1] == bk)) and e.loops]
